@@ -287,6 +287,9 @@ pub struct ColdCase {
     /// while the target streams its answer from the start
     #[serde(default)]
     pub duplex: Vec<(Hs, u32, u32)>,
+    /// flows whose application is silent for this many milliseconds between the local handshake and its first byte
+    #[serde(default)]
+    pub late_first: Vec<(Hs, u32)>,
 }
 
 pub struct ColdUpload;
@@ -304,7 +307,8 @@ fn cold_once(c: &ColdCase) -> (Option<FlowFail>, Vec<String>) {
         let hb: Vec<_> = c.busy_answers.iter().enumerate().map(|(i, (h, n))| sc.spawn(move || crate::sys::flow::answer_during_upload(port, *h, *n, 4000 + i as u64))).collect();
         let hl: Vec<_> = c.stalled_answers.iter().enumerate().map(|(i, (h, n, ms))| sc.spawn(move || crate::sys::flow::stalled_answer(port, *h, *n, 5000 + i as u64, *ms))).collect();
         let hd: Vec<_> = c.duplex.iter().enumerate().map(|(i, (h, u, d))| sc.spawn(move || crate::sys::flow::duplex_bulk(port, *h, *u, *d, 6000 + i as u64))).collect();
-        for h in hs.into_iter().chain(hb).chain(hl).chain(hd) {
+        let hf: Vec<_> = c.late_first.iter().enumerate().map(|(i, (h, ms))| sc.spawn(move || crate::sys::flow::late_first_write(port, *h, *ms, 7000 + 2 * i as u64))).collect();
+        for h in hs.into_iter().chain(hb).chain(hl).chain(hd).chain(hf) {
             if let Ok(Err(f)) = h.join() {
                 fails.push(f);
             }
@@ -315,6 +319,9 @@ fn cold_once(c: &ColdCase) -> (Option<FlowFail>, Vec<String>) {
     }
     if !c.duplex.is_empty() {
         labels.push("full-duplex-bulk-write-before-read".into());
+    }
+    if !c.late_first.is_empty() {
+        labels.push("silence-between-handshake-and-first-byte".into());
     }
     if !c.busy_answers.is_empty() {
         labels.push("answer-during-upload".into());
@@ -330,7 +337,7 @@ fn cold_once(c: &ColdCase) -> (Option<FlowFail>, Vec<String>) {
         fail = Some(FlowFail { soft: false, sig: "process-or-task-died".into(), msg: h });
     }
     if let Some(f) = &mut fail {
-        f.msg = format!("{} [{}; uploads={:?}; answers during upload={:?}; answers for a late reader={:?}; duplex={:?}]\n{}", f.msg, c.spec.short(), c.uploads, c.busy_answers, c.stalled_answers, c.duplex, crate::ev::truncate(&cl.logs(8), 1500));
+        f.msg = format!("{} [{}; uploads={:?}; answers during upload={:?}; answers for a late reader={:?}; duplex={:?}; late first byte={:?}]\n{}", f.msg, c.spec.short(), c.uploads, c.busy_answers, c.stalled_answers, c.duplex, c.late_first, crate::ev::truncate(&cl.logs(8), 1500));
     }
     (fail, labels)
 }
@@ -345,7 +352,7 @@ impl SubCheck for ColdUpload {
         let size = prop_oneof![2 => 1u32..70_000, 3 => 70_000u32..=max, 1 => Just(1_048_576u32)];
         let up = (hs_strategy(), size, prop_oneof![3 => Just(0u16), 2 => 1u16..400, 1 => 800u16..1600]);
         let busy = (hs_strategy(), prop_oneof![1 => 1u32..70_000, 2 => 70_000u32..=max]);
-        (spec_strategy(None), proptest::collection::vec(up, 0..=6), proptest::collection::vec(busy, 0..=3)).prop_map(|(spec, uploads, busy_answers)| ColdCase { spec, uploads, busy_answers, stalled_answers: vec![], duplex: vec![] }).boxed()
+        (spec_strategy(None), proptest::collection::vec(up, 0..=6), proptest::collection::vec(busy, 0..=3)).prop_map(|(spec, uploads, busy_answers)| ColdCase { spec, uploads, busy_answers, stalled_answers: vec![], duplex: vec![], late_first: vec![] }).boxed()
     }
     fn exec(&self, c: &ColdCase) -> Outcome {
         let (mut fail, mut labels) = cold_once(c);
@@ -365,11 +372,13 @@ impl SubCheck for ColdUpload {
             }
         }
         let mut out = Outcome::new();
-        out.weight = (c.uploads.len() + c.busy_answers.len() + c.stalled_answers.len() + c.duplex.len()).max(1) as u64;
+        out.weight = (c.uploads.len() + c.busy_answers.len() + c.stalled_answers.len() + c.duplex.len() + c.late_first.len()).max(1) as u64;
         for l in labels {
             out.label(l);
         }
-        if !c.duplex.is_empty() {
+        if !c.late_first.is_empty() {
+            out.nontrivial(format!("{}|late-first-byte|{:?}", c.spec.short(), c.late_first.iter().map(|(h, ms)| (h.name(), ms / 1000)).collect::<Vec<_>>()));
+        } else if !c.duplex.is_empty() {
             out.nontrivial(format!("{}|duplex|{:?}", c.spec.short(), c.duplex.iter().map(|(h, u, d)| (h.name(), u >> 20, d >> 20)).collect::<Vec<_>>()));
         } else if !c.stalled_answers.is_empty() {
             out.nontrivial(format!("{}|late-reader|{:?}", c.spec.short(), c.stalled_answers.iter().map(|(h, n, ms)| (h.name(), crate::gen::size_class(*n as usize), ms / 1000)).collect::<Vec<_>>()));
@@ -452,7 +461,7 @@ pub fn run(ctx: &mut PropCtx) {
         spec.seed = ctx.seed.wrapping_mul(977) + i as u64;
         spec.workers = 2 + (i % 5) as u8;
         let h = |k: u64| Hs::ALL[((i as u64 + k + ctx.seed) % 4) as usize];
-        late.push(ColdCase { spec, uploads: vec![], busy_answers: vec![], duplex: vec![], stalled_answers: vec![(h(0), 40_000 + (i as u32 * 997) % 60_000, 14_500), (h(1), 9_000 + (i as u32 * 131) % 20_000, 13_500), (h(2), 300_000, 3_000)] });
+        late.push(ColdCase { spec, uploads: vec![], busy_answers: vec![], duplex: vec![], late_first: vec![(h(3), 6_500), (h(0), 11_000)], stalled_answers: vec![(h(0), 40_000 + (i as u32 * 997) % 60_000, 14_500), (h(1), 9_000 + (i as u32 * 131) % 20_000, 13_500), (h(2), 300_000, 3_000)] });
     }
     rt::run_list(ctx, &ColdUpload, "late-reader", late);
     // full duplex in bulk, write-before-read: one combination per transport in the quick tier, all of them in thorough
@@ -467,7 +476,7 @@ pub fn run(ctx: &mut PropCtx) {
         spec.workers = 2 + (i % 4) as u8;
         let h = Hs::ALL[((i as u64 + 2 + ctx.seed) % 4) as usize];
         let mib = 1u32 << 20;
-        duplex.push(ColdCase { spec, uploads: vec![], busy_answers: vec![], stalled_answers: vec![], duplex: vec![(h, 14 * mib + (i as u32 * 7919) % mib, 9 * mib + (i as u32 * 104729) % mib)] });
+        duplex.push(ColdCase { spec, uploads: vec![], busy_answers: vec![], stalled_answers: vec![], late_first: vec![], duplex: vec![(h, 14 * mib + (i as u32 * 7919) % mib, 9 * mib + (i as u32 * 104729) % mib)] });
     }
     rt::run_list(ctx, &ColdUpload, "duplex-bulk", duplex);
     rt::run_sub(ctx, &ColdUpload, ctx.tier.pick(60, 1000));
